@@ -417,6 +417,19 @@ def rule_r6(ctx):
                 if t["args"] and t["args"][0]["k"] in ("copy", "move"):
                     recv = ".".join(pp[-1] for (rr, pp) in body.trace_operand(t["args"][0]) if pp)
                 out.add((seg, recv))
+                # the value may be produced inside a closure handed to the call (`dies(&a).then(|| self.wire_map[&a])`)
+                for a in t["args"][1:]:
+                    if a["k"] not in ("copy", "move"):
+                        continue
+                    for (r2, p2) in body.trace(a["place"], through={}):
+                        cid = body.blocks[r2[1]]["stmts"][r2[2]]["rv"].get("closure") if r2[0] == "agg" else None
+                        if cid and ctx.has_fn(cid):
+                            cb = ctx.body(cid)
+                            for _, ct in cb.calls():
+                                cseg = mir.last_seg(mir.callee(ct) or "")
+                                if cseg in ("index", "get", "get_mut") and ct["args"]:
+                                    crecv = ".".join(p3[-1] for (f3, r3, p3) in ctx.lifted_trace(cb, ct["args"][0]) if p3)
+                                    out.add((cseg, crecv))
             elif r[0] == "agg":
                 rv = body.blocks[r[1]]["stmts"][r[2]]["rv"]
                 out.add(("agg", rv.get("adt") or rv.get("akind")))
